@@ -436,6 +436,14 @@ pub enum Profile {
     /// (a wake-up delivered to one waiter only, a per-waiter slot table that overflows, a
     /// counter of in-flight users).
     Crowd,
+    /// Twins: 2..=4 threads released together whose FIRST op is the same entry point with the
+    /// same discrete arguments (op kind, depth, delta_depth; for coverage queries often the same
+    /// radius too) and different positions / cells.  Scenario number `i` takes its op kind from a
+    /// fixed rotation, so every entry point of the menu is first-used simultaneously in every
+    /// batch.  Catches lazily built state that hangs off ONE entry point and is keyed by one of
+    /// its discrete arguments (a per-delta_depth pattern cache, a per-depth look-up table of one
+    /// accessor), which random op mixes rarely first-use from two threads at the same instant.
+    Twins,
 }
 
 pub fn n_hash(d: u8) -> u64 {
@@ -791,6 +799,64 @@ fn generate_crowd(seed: u64) -> Scenario {
     Scenario { threads, faults }
 }
 
+/// Op kinds of the twins rotation: entry points with a discrete argument besides the depth
+/// (delta_depth: X, Kc, Ec) come up more often.
+const TWIN_KINDS: [usize; 19] = [8, 5, 15, 2, 8, 3, 4, 8, 6, 7, 5, 9, 10, 8, 11, 16, 15, 1, 0];
+
+fn with_dd(op: Op, new_dd: u8) -> Op {
+    match op {
+        Op::X { d, h, .. } => Op::X { d, h, dd: if d >= 29 { 0 } else { new_dd.max(1).min(29 - d) } },
+        Op::Kc { d, lon, lat, r, .. } => Op::Kc { d, dd: new_dd.min(29 - d), lon, lat, r },
+        Op::Ec { d, lon, lat, a, b, pa, .. } => Op::Ec { d, dd: new_dd.min(29 - d), lon, lat, a, b, pa },
+        o => o,
+    }
+}
+
+/// Twin scenarios (see [`Profile::Twins`]).
+fn generate_twins(seed: u64, index: u64) -> Scenario {
+    let mut rng = Rng::new(seed);
+    let k = TWIN_KINDS[(index % TWIN_KINDS.len() as u64) as usize];
+    let n_threads = match rng.below(4) { 0 | 1 => 2, 2 => 3, _ => 4 } as usize;
+    let d = rng.below(N_DEPTHS as u64) as u8;
+    let dd = rng.range(1, 3) as u8;
+    let other = rng.below(N_DEPTHS as u64) as u8;
+    let same_radius = rng.chance(1, 2);
+    let first = with_dd(gen_op(&mut rng, k, d, true), dd);
+    let mut threads = Vec::with_capacity(n_threads);
+    for ti in 0..n_threads {
+        let mut op = with_dd(gen_op(&mut rng, k, d, true), dd);
+        if same_radius {
+            // same radius / semi-axes as the first twin, own position
+            op = match (op, &first) {
+                (Op::K { d, lon, lat, .. }, Op::K { r, .. }) => Op::K { d, lon, lat, r: *r },
+                (Op::Kc { d, dd, lon, lat, .. }, Op::Kc { r, .. }) => Op::Kc { d, dd, lon, lat, r: *r },
+                (Op::E { d, lon, lat, pa, .. }, Op::E { a, b, .. }) => Op::E { d, lon, lat, a: *a, b: *b, pa },
+                (Op::Ec { d, dd, lon, lat, pa, .. }, Op::Ec { a, b, .. }) => Op::Ec { d, dd, lon, lat, a: *a, b: *b, pa },
+                (Op::V { d, lon, lat, .. }, Op::V { r, .. }) => Op::V { d, lon, lat, r: *r },
+                (o, _) => o,
+            };
+        }
+        let mut ops = vec![op];
+        if rng.chance(1, 3) {
+            // a second op: the same entry point at another depth, or a light op on the same depth
+            if rng.chance(1, 2) {
+                ops.push(with_dd(gen_op(&mut rng, k, other, true), dd));
+            } else {
+                let lk = [0usize, 1, 3, 10, 11][rng.below(5) as usize];
+                ops.push(gen_op(&mut rng, lk, d, true));
+            }
+        }
+        let late = ti > 0 && rng.chance(1, 8);
+        threads.push(ThreadSpec { start: if late { Start::Late } else { Start::Line }, ops });
+    }
+    let mut faults = Vec::new();
+    if rng.chance(1, 3) {
+        let ti = rng.below(n_threads as u64) as u8;
+        faults.push(Fault::Stall { thread: ti, at_event: rng.range(1, 8) as u32, steps: rng.range(1, 30) as u32 });
+    }
+    Scenario { threads, faults }
+}
+
 /// Range-centred scenarios (see [`Profile::Ranges`]).
 fn generate_ranges(seed: u64) -> Scenario {
     let mut rng = Rng::new(seed);
@@ -868,6 +934,9 @@ pub fn generate_indexed(seed: u64, index: u64, profile: Profile) -> Scenario {
     if profile == Profile::Pairs {
         return generate_pairs(seed, index);
     }
+    if profile == Profile::Twins {
+        return generate_twins(seed, index);
+    }
     generate(seed, profile)
 }
 
@@ -893,12 +962,15 @@ pub fn generate(seed: u64, profile: Profile) -> Scenario {
     if profile == Profile::Crowd {
         return generate_crowd(seed);
     }
+    if profile == Profile::Twins {
+        return generate_twins(seed, seed);
+    }
     let mut rng = Rng::new(seed);
     let (max_threads, max_ops, light) = match profile {
         Profile::Full => (6u64, 4u64, false),
         Profile::Light => (5, 2, true),
         Profile::Tiny => (4, 1, true),
-        Profile::Cover | Profile::Crash | Profile::Ranges | Profile::Pairs | Profile::Xmatch | Profile::Long | Profile::Crowd => unreachable!(),
+        Profile::Cover | Profile::Crash | Profile::Ranges | Profile::Pairs | Profile::Xmatch | Profile::Long | Profile::Crowd | Profile::Twins => unreachable!(),
     };
     // thread count: biased to small
     let n_threads = match rng.below(10) {
@@ -1005,7 +1077,7 @@ mod tests {
     use super::*;
     #[test]
     fn roundtrip() {
-        for p in [Profile::Full, Profile::Light, Profile::Tiny, Profile::Cover, Profile::Crash, Profile::Ranges, Profile::Pairs, Profile::Xmatch, Profile::Long, Profile::Crowd] {
+        for p in [Profile::Full, Profile::Light, Profile::Tiny, Profile::Cover, Profile::Crash, Profile::Ranges, Profile::Pairs, Profile::Xmatch, Profile::Long, Profile::Crowd, Profile::Twins] {
             for s in 0..2000u64 {
                 let sc = generate(derive_seed(1, 2, s), p);
                 let txt = encode(&sc);
